@@ -452,6 +452,9 @@ class ClassParser(BaseParser):
 
             # TODO: it seems redundant for Schema, so we just use it as a fallback for now
             # and work on it later if something went wrong
+            if not field and hasattr(instance.__class__, attname):
+                # an additional key must not shadow an attribute of the class (like dict.items)
+                continue
             instance.__dict__[attname] = value
             # set to __dict__ no matter field (maybe addition=True)
 
